@@ -374,8 +374,47 @@ def _solve_z3(hyps, goal, timeout_ms):
 _CANDIDATE = [None]
 
 
+def _unpb(e, cache):
+    """z3's simplifier turns small cardinality facts into pseudo-boolean terms ((_ at-most k), (_ pble ...)) that cvc5 does not parse:
+    rewrite them back into integer sums for the export"""
+    k = e.get_id()
+    if k in cache:
+        return cache[k][1]
+    r = e
+    if z3.is_quantifier(e):
+        body = _unpb(e.body(), cache)
+        if not z3.eq(body, e.body()):
+            vs = [z3.Const(e.var_name(i), e.var_sort(i)) for i in range(e.num_vars())]
+            b2 = z3.substitute_vars(body, *reversed(vs))
+            r = z3.ForAll(vs, b2) if e.is_forall() else z3.Exists(vs, b2)
+    elif z3.is_app(e) and e.num_args() > 0:
+        args = [_unpb(e.arg(i), cache) for i in range(e.num_args())]
+        kind = e.decl().kind()
+        one = lambda b, c=1: z3.If(b, z3.IntVal(c), z3.IntVal(0))     # noqa
+        if kind == z3.Z3_OP_PB_AT_MOST:
+            r = z3.Sum([one(a) for a in args]) <= e.decl().params()[0]
+        elif kind == z3.Z3_OP_PB_AT_LEAST:
+            r = z3.Sum([one(a) for a in args]) >= e.decl().params()[0]
+        elif kind in (z3.Z3_OP_PB_LE, z3.Z3_OP_PB_GE, z3.Z3_OP_PB_EQ):
+            ps = e.decl().params()
+            lhs = z3.Sum([one(a, c) for a, c in zip(args, ps[1:])])
+            r = (lhs <= ps[0]) if kind == z3.Z3_OP_PB_LE else (lhs >= ps[0]) if kind == z3.Z3_OP_PB_GE else (lhs == ps[0])
+        elif any(not z3.eq(a, e.arg(i)) for i, a in enumerate(args)):
+            r = e.decl()(*args)
+    cache[k] = (e, r)
+    return r
+
+
 def _solve_cvc5(solver, timeout_ms):
     smt = solver.to_smt2()
+    if "at-most" in smt or "pble" in smt or "pbge" in smt or "pbeq" in smt or "at-least" in smt:
+        try:
+            cache = {}
+            s2 = z3.Solver()
+            s2.add(*[_unpb(a, cache) for a in solver.assertions()])
+            smt = s2.to_smt2()
+        except Exception:
+            pass
     smt = "(set-logic ALL)\n" + smt
     with tempfile.NamedTemporaryFile("w", suffix=".smt2", delete=False, dir=os.environ.get("PYVC_SCRATCH", None)) as f:
         f.write(smt)
